@@ -23,6 +23,10 @@ func (c *ClientChannel) receiveSessionFromServer(ctx context.Context) (*Session,
 		return nil, fmt.Errorf("receive session: %w", err)
 	}
 
+	if current := c.State(); ses.State.Step() < current.Step() {
+		return nil, fmt.Errorf("receive session: invalid transition from state %v to %v", current, ses.State)
+	}
+
 	if ses.State == SessionStateEstablished {
 		c.localNode = ses.To
 		c.remoteNode = ses.From
